@@ -298,10 +298,17 @@ class Interp:
             o.spatialGrid = A.grids.AxialGrid.fromNCells(4, armiObject=o)
         return self.new_node(o, "G")
 
-    def make_component(self, n, parent=None):
+    def make_component(self, n, parent=None, falsy_ok=False):
         C = self.A.components
         T = {"Tinput": 25.0, "Thot": 400.0}
-        m = n % 8
+        m = n % 12 if falsy_ok else n % 8
+        if m >= 8:
+            # NullComponent is the one falsy class of the composite model (__bool__ is False); it has no area, so no
+            # caller puts it into a Block (Block.remove/removeAll compute volume fractions): generic parents only
+            self.serial += 1
+            o = C.NullComponent("null%d" % self.serial, "Void", **T)
+            self.out.label("falsy-node")
+            return self.new_node(o, "C", "null")
         if m == 0:
             o = C.Circle("fuel", "UZr", od=0.76, id=0.0, mult=7.0, **T)
         elif m == 1:
@@ -405,7 +412,7 @@ class Interp:
             for n in sizes[1:]:
                 parents = [p for p in self.nodes if p.cls == "G" and self.depth(p) < MAX_DEPTH]
                 p = parents[n % len(parents)]
-                c = self.make_component(n // 7) if n % 4 == 0 else self.make_generic(n // 7)
+                c = self.make_component(n // 7, falsy_ok=True) if n % 4 == 0 else self.make_generic(n // 7)
                 self.do_add(p, c, [n % 3, (n // 3) % 3, (n // 9) % 3])
         elif kind == "block":
             self.make_block(sizes[0], init["geom"])
@@ -466,7 +473,7 @@ class Interp:
         if p.cls == "G":
             return c.cls in ("G", "C") and self.depth(p) + 1 + self.height(c) <= MAX_DEPTH
         if p.cls == "B":
-            return c.cls == "C"
+            return c.cls == "C" and c.geom != "null"
         if p.cls == "A":
             return c.cls == "B" and c.geom == p.geom
         if p.cls == "K":
@@ -477,7 +484,7 @@ class Interp:
 
     def new_child_for(self, p, n):
         if p.cls == "G":
-            return self.make_component(n // 3, p) if n % 3 == 0 else self.make_generic(n // 3)
+            return self.make_component(n // 3, p, falsy_ok=True) if n % 3 == 0 else self.make_generic(n // 3)
         if p.cls == "B":
             return self.make_component(n, p)
         if p.cls == "A":
@@ -568,6 +575,8 @@ class Interp:
             kinds = {c.cls == "C" for c in self.kids(x)}
             if len(kinds) > 1:
                 return False
+            if len(x.children) > 1 and any(c.geom == "null" for c in self.kids(x)):
+                return False  # a NullComponent has no bounding circle to compare with
         return True
 
     def op_sort(self, r):
@@ -942,6 +951,7 @@ class Interp:
         kids = self.kids(n)
         # -- direct children, all spellings
         self.check_exact(o.getChildren(), kids, "query/getChildren", "getChildren()")
+        self.gate()
         self.check_exact(list(o.iterChildren()), kids, "query/iterChildren", "iterChildren()")
         self.check_exact([o[i] for i in range(len(o))], kids, "query/getitem", "node[i]")
         for c in kids[:3]:
